@@ -1,18 +1,31 @@
 package scengen
 
 import (
-	"strings"
 	"testing"
 
+	"gopkg.in/yaml.v2"
 	"pgregory.net/rapid"
 )
+
+// stripLocals re-marshals the file without its `locals` helper block (anchors resolved by the reader).
+func stripLocals(t *rapid.T, text []byte) []byte {
+	var v map[string]any
+	if err := yaml.Unmarshal(text, &v); err != nil {
+		t.Fatalf("yaml.v2 cannot read the anchored rendering: %v\n%s", err, text)
+	}
+	delete(v, "locals")
+	b, err := yaml.Marshal(v)
+	if err != nil {
+		t.Fatalf("%v", err)
+	}
+	return b
+}
 
 // the anchored rendering of generated descriptions: kept (self-check passed) in all but rare cases, and the
 // classes of the plan are all met
 func TestAnchoredGenerated(t *testing.T) {
 	n := map[string]int{}
 	reasons := map[string]int{}
-	shown := 0
 	rapid.Check(t, func(t *rapid.T) {
 		m := Gen(t, Opts{Special: true, TextBlocks: true, YAMLStyles: true, YAMLOrder: true, FileTails: true, YAMLAnchors: true})
 		n["cases"]++
@@ -62,9 +75,8 @@ func TestAnchoredGenerated(t *testing.T) {
 		if over {
 			n["cases_with_override"]++
 		}
-		if over && shown < 2 && strings.Contains(string(out), "<<: [") {
-			shown++
-			println(string(out))
+		if !yamlDecodesEqual(stripLocals(t, out), RenderYAML(m)) {
+			t.Fatalf("anchored rendering reads differently:\n%s", out)
 		}
 	})
 	t.Logf("%v", n)
